@@ -46,6 +46,27 @@ claim('C05', 'table conformance + control-dependence rules on event producers + 
       'for every history of the extracted machine.',
       'Not decided: step-by-step equality with a reference model on concrete wire bytes and real time; interleaving with DIMSE '
       'reassembly. Trusted: oracle transcription, CPython library semantics.', 'DESIGN.md section 3 C05')
+claim('C06', 'arithmetic/ordering rules on chunks, fragment, fragment_file and DIMSEMessage.encode (affine normal forms, provenance terms); overhead derived from the codec layouts',
+      'Decides for every maximum, length and context id: fragment width = maximum - 6 with 6 derived from the PDV/P-DATA layouts '
+      '(bound holds and is tight), tiling without gap or overlap, last flag exactly "pos + width < len" (bytes) / "one more byte" '
+      '(file), flag literals (1,3)/(0,2), command before data, context id and control byte per PDV, one PDV per PDU, bytes and '
+      'file variants agree, and the limit handed to encode is the negotiated one at its single call site.',
+      'Trusted: CPython range/slice/file semantics, pydicom command-set encoding. Not decided: byte-exactness of the command set.',
+      'DESIGN.md section 3 C06')
+claim('C07', 'finite typestate evaluation of DIMSEDecoder.process over all abstract (flags x marker x no-data-set) cases; table and wiring rules',
+      'The completion predicate is evaluated exhaustively over the abstract cases by abstract interpretation of the per-PDV body '
+      '(no execution); marker sets are checked against the encoder\'s flags, the control-byte strip against its size, delivery is '
+      'dominated by completion and followed by reset, MESSAGE_TYPE agrees with the 23 command_field constants, and the '
+      'file-reception wiring (context, start position, flush, meta header syntax) is checked by provenance.',
+      'Not decided: exactness as behaviour over concrete PDV groupings; readability of the produced file by pydicom.',
+      'DESIGN.md section 3 C07')
+claim('C08', 'table rules against PS3.7 E.1 + shape rules on set_length, the data_set setter and Association.send; pydicom dictionary and ordering read by parsing',
+      'Decides for all 23 classes and all field values: command field constants, tag bound to each property, keywords exist in '
+      'group 0000 with CommandGroupLength first, implicit-VR-little-endian wiring, group length sums every element except '
+      '(0000,0000) however the set was built, computed before every encode, data-set flag written on both outcomes of the test '
+      'encode uses. Re-sending is covered together with C16.R4 (no mutation while the lazy encoder is pending).',
+      'Trusted: pydicom element encoding and ascending tag order (sorting re-checked by parsing pydicom/dataset.py).',
+      'DESIGN.md section 3 C08')
 claim('C12', 'interprocedural may-raise analysis (exception-flow over flow.py) with a frozen library exception model; handler shape and blocking-call rules',
       'Shows that no exception raised by peer-driven code leaves the provider thread, that an undecodable PDU becomes exactly Evt19, '
       'that a failing reassembly runs the abort action, that what is sent on Evt19 is a freshly built A-ABORT, that the last-resort '
@@ -58,6 +79,14 @@ claim('C13', 'blocking-call guard rule, table exit rows, typestate "user informe
       'Association.kill is reached on every exit of handle()/request_association(); its wait is bounded.',
       'Not decided: wall-clock bounds and OS socket behaviour. Each loop iteration is bounded under the assumption that sendall '
       'makes progress.', 'DESIGN.md section 3 C13')
+
+claim('C18', 'shape rules (provenance) on add_status/register_statuses/Status.__init__ + interval arithmetic on the folded KNOWN_STATUSES table',
+      'Exhaustive over 65536 codes x 11 response classes + none without enumerating codes: the registration and lookup '
+      'functions are shown to implement inclusive ranges and specific-before-general-before-UNKNOWN, then the 57 rows are '
+      'partitioned into intervals per class and every interval is checked (one of five types, 0000H Success, pending codes, '
+      'no conflicting rows, UNKNOWN is Failure); int() returns the code.',
+      'Trusted: CPython dict/range semantics. Not decided: agreement of general codes with PS3.7 Annex C (not stated).',
+      'DESIGN.md section 3 C18')
 
 NOT_YET = 'check not built yet (build in progress, see DESIGN.md section 8)'
 
